@@ -55,10 +55,50 @@ def make_cases(rng, tier):
     return cases
 
 
+def history_cases(rng, n):
+    """Multi-engine histories: a tree is built, processed by a real Processor, extended by one more call with
+    preferred-engine options (possibly inserted upstream of a transfer that already holds a payload), and the
+    declaration of the result is compared with the rows it yields when processed and executed."""
+    import c03
+    import multiprog as mp
+    out = []
+    for _ in range(n):
+        if rng.random() < 0.3:
+            base, _cur, src, o = c03.order_sensitive(rng, [0])
+        else:
+            # operations every mover commutes with (calculations, projections) above the transfer
+            src, mid = rng.sample([("it", 0), ("it", 1)], 2)
+            cols = gen.gen_schema(rng, maxk=2, maxn=1, allow_empty=rng.random() < 0.15)
+            base = ("xfer", mid, mp.gen_leaf(rng, 1, cols, src, special=0, loose=0))
+            cur = set(cols)
+            for _i in range(rng.choice([0, 1, 2])):
+                op, cur = gen.gen_op(rng, cur, weights=[2, 0, 2, 0, 0, 0])
+                base = ("un", op, mp.DEFAULT, base)
+            o, _c = gen.gen_op(rng, cur, weights=[1, 1, 2, 2, 3, 1])
+        opts = (src, True, rng.random() < 0.3, False)
+        w = mp.World()
+        try:
+            rel0 = mp.build_impl(base, w)
+            start = mp.RealProcessor(w, None).process(rel0) if rng.random() < 0.7 else rel0
+            rel = mp.apply_un(start, o, opts, w)
+            rows, _p, _x = mp.execute(w, rel)
+        except Exception:  # noqa: BLE001 — refusals and execution problems are other properties' concern
+            continue
+        coq = (f"DCase {cset(sorted(rel.columns))} {cz(rel.min_rows)} {coptz(rel.max_rows)} {cbool(bool(rel.is_join_identity))} "
+               f"{enc.crows(rows)}")
+        out.append({"json": {"base": jsonable(base), "call": jsonable(o), "options": jsonable(opts), "tree": str(rel),
+                             "declared": [sorted(map(str, rel.columns)), rel.min_rows, rel.max_rows], "rows": jsonable(rows)},
+                    "coq": coq, "nontrivial": True, "key": coq + str(rel)})
+    return out
+
+
 def run(ctx):
     rng = random.Random(ctx.seed)
     s1 = core.s1(ctx, ["Slice"], "Properties.C06", THEOREMS, extra_targets=["Model/CheckMeta.vo"])
     cases = make_cases(rng, ctx.tier)
+    hcases = history_cases(rng, 200 if ctx.tier == "quick" else 4000)
+    hsumm = core.judge(ctx, hcases, HDR, "check_decl", prefix="cases_C06h",
+                       bits={4: "rows of a processed-extended-processed tree contradict its declared columns / row bounds / flags"})
     bits = {1: "built tree differs from the model",
             2: "columns / min_rows / max_rows / is_join_identity / is_trivial differ from the model's",
             4: "executed rows contradict the metadata the library declares (keys, count bounds or a flag)",
@@ -68,10 +108,11 @@ def run(ctx):
     for c in cases:
         remap.append(c)
     summ = core.judge(ctx, cases, HDR.replace("check_meta", "check_meta"), "check_meta_j", bits=bits)
-    core.conclude_s1(ctx, s1, summ["spec_failures"] > 0 or bool(ctx.violations))
-    distinct = {c["key"] for c in cases if c["nontrivial"]}
+    core.conclude_s1(ctx, s1, summ["spec_failures"] + hsumm["spec_failures"] > 0 or bool(ctx.violations))
+    distinct = {c["key"] for c in cases + hcases if c["nontrivial"]}
     ctx.coverage.update({
-        "evaluations": len(cases), "distinct_nontrivial": len(distinct),
+        "evaluations": len(cases) + len(hcases), "distinct_nontrivial": len(distinct),
+        "multi_engine_histories": hsumm,
         "rule": "iteration-engine programs over leaves whose declared bounds are exact, loose, zero or unbounded but "
                 "consistent with the real row count, plus doomed and join-identity leaves; for every built relation the "
                 "declared columns/min_rows/max_rows/flags are compared with the model's and with the executed rows; "
